@@ -37,7 +37,11 @@ RULE = (
     "null; for every datum at <=1 deviation the resolver is invoked iff deserialize accepts and receives an equal value, "
     "otherwise a GraphQL error and no call. Source worlds: argument signatures (required / default / None / "
     "unserialisable / list default / Undefined / enum default), interfaces, unions of objects, id_types with encoding, "
-    "error_handler. distinct_nontrivial counts distinct (ctor-pair shape, view, value / datum index) tuples."
+    "error_handler. Composition of operations: every ordered pair (quick) / triple (thorough) of a menu of 14 operations "
+    "sharing types on purpose (the same union twice, named and unnamed; a class flattened here and plain there; interface "
+    "implementations; recursion only through resolvers; a conversion carried by a list field): the schema validates, each "
+    "operation executes to its fixed expected data, and its type and every type reachable from it are those of the "
+    "operation alone. distinct_nontrivial counts distinct (ctor-pair shape, view, value / datum index) tuples."
 )
 
 ATOMS = {"int", "float", "str", "bool", "enum_str", "enum_int", "newtype_int", "con_int", "con_str", "con_float"}
@@ -704,8 +708,187 @@ def world_checks(st: infra.Stats):
     sys.modules.pop(m.__name__, None)
 
 
+
+# ------------------------------------------------------------------ composition of operations
+# "every supported SET of operations": the type of an operation, and what executing it returns, do not depend on the
+# other operations of the schema nor on their order. Explored exhaustively: every ordered pair (quick) / triple
+# (thorough) of the menu below, whose entries share types on purpose (same union twice, a type flattened here and plain
+# there, recursion only through resolvers, a conversion carried by a list field).
+COMPOSE = '''
+import graphql
+from apischema.graphql import graphql_schema, resolver, interface
+@interface
+@dataclass
+class CI:
+    i: int = 0
+@dataclass
+class CA(CI):
+    x: int = 1
+@dataclass
+class CB:
+    y: int = 2
+@dataclass
+class CF:
+    a: CA = field(default_factory=CA, metadata=flatten)
+    z: int = 3
+@dataclass
+class CG:
+    f: CF = field(default_factory=CF, metadata=flatten)
+    w: int = 4
+@dataclass
+class CH:
+    a: CA = field(default_factory=lambda: CA(0, 4))
+    u: Union[CA, CB] = field(default_factory=lambda: CB(6))
+    ou: Optional[Union[CA, CB]] = None
+def _to_s(i: int) -> str: return "s" + str(i)
+@dataclass
+class CL:
+    xs: List[int] = field(default_factory=lambda: [1, 2], metadata=conversion(serialization=_to_s))
+    o: Optional[int] = field(default=5, metadata=conversion(serialization=_to_s))
+@dataclass
+class CR:
+    v: int = 0
+    @resolver
+    def me(self) -> "CR": return CR(self.v + 1)
+@dataclass
+class CR2:
+    v: int = 0
+    @resolver
+    def kids(self) -> List["CR2"]: return [CR2(self.v + 1)]
+    @resolver
+    def opt(self) -> Optional["CR2"]: return None
+    @resolver
+    def pal(self) -> CR: return CR(9)
+NamedU = Annotated[Union[CA, CB], type_name("NamedU")]
+def u_one() -> Union[CA, CB]: return CA(0, 1)
+def u_two() -> Union[CA, CB]: return CB(2)
+def u_opt() -> Optional[Union[CA, CB]]: return None
+def u_list() -> List[Union[CA, CB]]: return [CA(0, 1), CB(2)]
+def nu_one() -> NamedU: return CB(3)
+def nu_two() -> NamedU: return CA(1, 3)
+def a_plain() -> CA: return CA(0, 7)
+def i_face() -> CI: return CA(8, 9)
+def f_flat() -> CF: return CF(CA(0, 5), 3)
+def g_flat() -> CG: return CG(CF(CA(1, 6), 7), 8)
+def h_hold() -> CH: return CH()
+def l_conv() -> CL: return CL()
+def r_rec() -> CR: return CR()
+def r2_rec() -> CR2: return CR2()
+U_SEL = "{ ... on CA { x i } ... on CB { y } }"
+MENU = {
+    "u_one": ("uOne " + U_SEL, {"x": 1, "i": 0}),
+    "u_two": ("uTwo " + U_SEL, {"y": 2}),
+    "u_opt": ("uOpt " + U_SEL, None),
+    "u_list": ("uList " + U_SEL, [{"x": 1, "i": 0}, {"y": 2}]),
+    "nu_one": ("nuOne " + U_SEL, {"y": 3}),
+    "nu_two": ("nuTwo " + U_SEL, {"x": 3, "i": 1}),
+    "a_plain": ("aPlain { x i }", {"x": 7, "i": 0}),
+    "i_face": ("iFace { i ... on CA { x } }", {"i": 8, "x": 9}),
+    "f_flat": ("fFlat { x i z }", {"x": 5, "i": 0, "z": 3}),
+    "g_flat": ("gFlat { x i z w }", {"x": 6, "i": 1, "z": 7, "w": 8}),
+    "h_hold": ("hHold { a { x i } u " + U_SEL + " ou " + U_SEL + " }", {"a": {"x": 4, "i": 0}, "u": {"y": 6}, "ou": None}),
+    "l_conv": ("lConv { xs o }", {"xs": ["s1", "s2"], "o": "s5"}),
+    "r_rec": ("rRec { v me { v me { v } } }", {"v": 0, "me": {"v": 1, "me": {"v": 2}}}),
+    "r2_rec": ("r2Rec { v kids { v kids { v } opt { v } } opt { v } pal { v me { v } } }", {"v": 0, "kids": [{"v": 1, "kids": [{"v": 2}], "opt": None}], "opt": None, "pal": {"v": 9, "me": {"v": 10}}}),
+}
+'''
+
+
+def _field_types(s) -> Dict[str, str]:
+    """printed type of every field of every object / interface type, and the members of every union"""
+    out = {}
+    for name, t in s.type_map.items():
+        if name.startswith("__"):
+            continue
+        if isinstance(t, (graphql.GraphQLObjectType, graphql.GraphQLInterfaceType)):
+            for fname, f in t.fields.items():
+                if name != "Query":
+                    out[f"{name}.{fname}"] = str(f.type)
+            out[f"{name}:implements"] = ",".join(sorted(i.name for i in t.interfaces))
+        elif isinstance(t, graphql.GraphQLUnionType):
+            out[f"{name}:members"] = ",".join(sorted(x.name for x in t.types))
+    return out
+
+
+def compose_checks(st: infra.Stats, tier: str, widx: int = 0, nworkers: int = 1):
+    import itertools
+
+    m = exec_source(PRELUDE + COMPOSE)
+    names = list(m.MENU)
+
+    def viol(kind, what, **sig):
+        st.violation({"label": "compose", "signature": dict({"kind": kind}, **sig), "what": what[:500]})
+
+    def build(ops):
+        s = graphql_schema(query=[getattr(m, n) for n in ops], types=[m.CA])  # CA: implementation of the interface CI
+        graphql.assert_valid_schema(s)
+        return s
+
+    # reference: each operation alone (its result must also be what serialize gives where serialize is defined)
+    alone: Dict[str, Tuple[str, Dict[str, str]]] = {}
+    for n in names:
+        q, exp = m.MENU[n]
+        st.case("compose", "alone", n)
+        try:
+            s = build([n])
+            r = graphql.graphql_sync(s, "{ " + q + " }")
+            key = q.split()[0]
+            if r.errors or r.data != {key: exp}:
+                viol("compose_alone", f"{n} alone: data={r.data} errors={[e.message for e in (r.errors or [])][:2]} expected {exp}", op=n)
+            alone[n] = (str(s.query_type.fields[key].type), _field_types(s))
+        except BaseException as e:
+            viol("compose_alone", f"{n} alone: {type(e).__name__}: {e}", op=n, exc=type(e).__name__)
+    if widx == 0:
+        # l_conv executes like serialize
+        try:
+            exp_ser = serialize(m.CL, m.CL(), aliaser=to_camel_case)
+            if exp_ser != m.MENU["l_conv"][1]:
+                viol("harness_error", f"menu expectation of l_conv differs from serialize: {exp_ser}")
+        except Exception as e:
+            viol("harness_error", repr(e))
+    size = 3 if tier == "thorough" else 2
+    combos = [c for k in range(2, size + 1) for c in itertools.permutations(names, k)]
+    for idx, ops in enumerate(combos):
+        if idx % nworkers != widx:
+            continue
+        st.case("compose", len(ops), ops)
+        try:
+            s = build(ops)
+        except BaseException as e:
+            viol("compose_build", f"schema of {ops}: {type(e).__name__}: {str(e)[:200]}", exc=type(e).__name__, first=ops[0])
+            continue
+        ft = _field_types(s)
+        r = graphql.graphql_sync(s, "{ " + " ".join(m.MENU[n][0] for n in ops) + " }")
+        exp = {m.MENU[n][0].split()[0]: m.MENU[n][1] for n in ops}
+        if r.errors or r.data != exp:
+            bad = [n for n in ops if (r.data or {}).get(m.MENU[n][0].split()[0], "<absent>") != m.MENU[n][1]]
+            viol("compose_exec", f"in the schema of {ops}: data={r.data} errors={[e.message for e in (r.errors or [])][:2]} expected {exp}", op=(bad or ["?"])[0])
+        for n in ops:
+            if n not in alone:
+                continue
+            key = m.MENU[n][0].split()[0]
+            t_alone, ft_alone = alone[n]
+            if str(s.query_type.fields[key].type) != t_alone:
+                viol("compose_type", f"{n}: type {s.query_type.fields[key].type} in the schema of {ops}, {t_alone} alone", op=n)
+            diff = {k: (v, ft.get(k)) for k, v in ft_alone.items() if ft.get(k) != v}
+            if diff:
+                viol("compose_type", f"{n}: types reachable from it differ in the schema of {ops}: {diff}", op=n)
+    st.count("compose_menu", len(names))
+    import sys
+
+    sys.modules.pop(m.__name__, None)
+
+
 def work(tier, widx, nworkers, st, extra):
     import os
+
+    if os.environ.get("VERIF_ONLY") in (None, "", "world", "compose"):
+        try:
+            compose_checks(st, tier, widx, nworkers)
+        except Exception:
+            import traceback
+
+            st.violation({"signature": {"kind": "harness_error"}, "harness_error": True, "what": "compose checks", "traceback": traceback.format_exc()[-2000:]})
 
     if widx == 0 and os.environ.get("VERIF_ONLY") in (None, "", "world"):
         try:
